@@ -270,3 +270,8 @@ class SyncHB_on_trial_result:
             "own-slot-with-the-reported-value": rb == bid and slot.trial_id == tid and slot.level == lvl and (is_nan(slot.metric_val) if is_nan(old.result["loss"]) else req(slot.metric_val, old.result["loss"])),
             "no-longer-pending": tid not in s.self._trial_to_pending_slot,
         }
+
+
+from pyvc.native import native_monitor  # noqa: E402
+
+EXTRA_CHECKS = [native_monitor("C05", "contracts.c05_native", "monitor_sync", "sync-hyperband", "about 23000 (thorough 217000) scenarios: get_top_list on every rank permutation x failure subset of <= 5 (6) slots, single brackets, synchronous and DEHB bracket managers and schedulers under every return order / failure sequence of 3..5 (5..7) steps and random schedules (1..9 workers, <= 70 (160) steps), against an independent reference with tie latitude; min/max twin runs incl. PASHA soft ranking and asynchronous Hyperband types")]
